@@ -233,6 +233,7 @@ package db
 //@   ensures [C01,C06 cal.denied-exact] (!allows(caller.Permissions, action, secret) && auditLog != old(auditLog)) ==>
 //@        auditLog == snoc(old(auditLog), evC(caller, str(action), secret, secretVersion, false))
 //@   ensures [C01,C09 cal.errclass-denied] !allows(caller.Permissions, action, secret) ==> (!errIs(err, ErrNotFound) && !errIs(err, api.ErrValueNotChanged))
+//@   ensures [C06 cal.a-record-is-offered-to-the-log-on-every-decision] defined(call_WriteEntries)
 //@   ensures [C06 cal.trail] auditLog == old(auditLog) || auditLog == snoc(old(auditLog), evC(caller, str(action), secret, secretVersion, allows(caller.Permissions, action, secret)))
 //@   ensures [C08 cal.errclass] (allows(caller.Permissions, action, secret) && err != nil) ==> (sinkErr(unwrap1(err)) && !errIs(err, ErrNotFound) && !errIs(err, ErrAccessDenied) && !errIs(err, api.ErrValueNotChanged))
 
@@ -303,6 +304,7 @@ package db
 //@        bytes(sv.Value) == db.kv.secrets[name].Versions[db.kv.secrets[name].ActiveVersion])
 //@   ensures [C09 getcond.zero-ignored] oldVersion == 0 ==> !errIs(err, api.ErrValueNotChanged)
 //@   ensures [C08,C09 getcond.notfound] (allows(caller.Permissions, "get", name) && !has(db.kv.secrets, name)) ==> (sv == nil && errIs(err, ErrNotFound))
+//@   ensures [C08,C09 getcond.notfound-only-if-absent] (allows(caller.Permissions, "get", name) && has(db.kv.secrets, name)) ==> !errIs(err, ErrNotFound)
 //@   at call get: assert [C14 getcond.locked] db.mu
 
 //@ func (*DB).Put(db, caller, name, value) (ver, err)
